@@ -226,6 +226,11 @@ def make_shape_exact(spec: typing.Any, names: typing.List[str], hi: int):
             params[k] = 8 * c if k.startswith("e") else c
         if not _extents_ok(spec, params):
             return None
+        from .. import textio
+
+        return textio.native(body, params)  # every parameter is concrete: run the real code natively
+
+    def body(params: typing.Dict[str, int]) -> typing.Any:
         conc = _subst(spec, params)
         t = T.build(conc)
         want = L.enumerate_set(conc)
@@ -245,6 +250,37 @@ def make_shape_exact(spec: typing.Any, names: typing.List[str], hi: int):
         return True
 
     return _arity(h, names)
+
+
+def make_family(family: str, inner: typing.Any):
+    """
+    Parametrised families: element width w in 1..16, capacity c in 1..3, tail width t in 1..8 (choice variables,
+    executed natively): exact set, residues, min/max, alignment, extent against O-LAYOUT's enumeration.
+    """
+    exact = make_shape_exact  # reuse the comparison
+
+    def spec_of(w: int, c: int, t: int) -> typing.Any:
+        if family == "varr-inner-tail":
+            return ["struct", [["varr", "u%d" % w, c], inner, "u%d" % t]]
+        if family == "farr-inner-tail":
+            return ["struct", [["farr", "u%d" % w, c], inner, "u%d" % t]]
+        if family == "head-varrinner-tail":
+            return ["struct", ["u%d" % w, ["varr", inner, c], "u%d" % t]]
+        if family == "union":
+            return ["union", [["varr", "u%d" % w, c], inner, "u%d" % t]]
+        if family == "nested":
+            return ["struct", [["struct", [["varr", "u%d" % w, c]]], "u%d" % t, inner]]
+        raise ValueError(family)
+
+    def h(w: int, c: int, t: int) -> typing.Any:
+        cw, cc, ct = pick(w, 1, 16), pick(c, 1, 3), pick(t, 1, 8)
+        if cw is None or cc is None or ct is None:
+            return None
+        from .. import textio
+
+        return textio.native(lambda: exact(spec_of(cw, cc, ct), ["unused"], 1)(1))
+
+    return h
 
 
 def make_delimited(inner: typing.Any, other: typing.Any, r: int):
@@ -384,10 +420,18 @@ def conditions(tier: str, seed: int) -> typing.List[Cond]:
         out.append(Cond(PROP, "c02.shape-exact", make_shape_exact, {"spec": spec, "names": names, "hi": hi + (2 if thorough else 0)},
                         sig, kind="choice", assumptions=["capacities / extents-in-bytes in 1..%d (choice)" % hi],
                         witness={n: hi for n in names}, budget=300.0))
-    for spec in T.catalogue(tier, seed):
+    for spec in T.catalogue(tier, seed) + T.random_shapes(seed, 300 if thorough else 80):
         out.append(Cond(PROP, "c02.shape-exact", make_shape_exact, {"spec": spec, "names": ["unused"], "hi": 1},
                         {"unused": int}, kind="choice", assumptions=["catalogue shape, no free parameter"],
                         witness={"unused": 1}, budget=300.0))
+    fam_inners = [["struct", ["u8"]], ["union", ["u8", "u16"]], ["delim", ["struct", ["u8"]], 16],
+                  ["farr", ["struct", ["u3"]], 2]]
+    for fam in ("varr-inner-tail", "farr-inner-tail", "head-varrinner-tail", "union", "nested"):
+        for inner in fam_inners if thorough else fam_inners[:3]:
+            out.append(Cond(PROP, "c02.family", make_family, {"family": fam, "inner": inner},
+                            {"w": int, "c": int, "t": int}, kind="choice",
+                            assumptions=["element width 1..16, capacity 1..3, tail width 1..8 (choice, 384 members)"],
+                            witness={"w": 12, "c": 2, "t": 4}, budget=600.0))
     inners = [(["struct", ["u8", "u16"]], ["union", ["u8", ["farr", "u8", 2]]]), (["struct", []], ["struct", ["bool"]]),
               (["union", ["u8", ["varr", "u16", 3]]], None)]
     for inner, other in inners:
